@@ -116,6 +116,10 @@ class Ctx(object):
                 return
         self.violations.append({"key": key, "what": what, "witness": jsonable(witness), "count": 1})
 
+    def enough(self, n=25):
+        """the verdict is already decided (many raw violations): checks may stop early"""
+        return self.counters["violations_raw"] >= n
+
     def inconclusive(self, why):
         self.inconclusive_reasons.append(why)
 
